@@ -56,6 +56,28 @@ class Ctx:
     def __exit__(self, *args: object) -> None:
         pass
 
+
+class Store:
+    @asynq()
+    def get_count(self, key: str) -> int:
+        return len(key)
+
+    @asynq()
+    def get_max(self, key: str) -> int:
+        return len(key) + 1
+
+    @asynq()
+    def get_settings(self, key: str) -> int:
+        return len(key) + 2
+
+    @asynq()
+    def get_peak(self, key: str) -> int:
+        return len(key) + 3
+
+
+STORE = Store()
+settings = {"bonus": 10}
+
 '''
 
 # name -> (kind, codes it is expected to raise, needs-enable codes, lines template)
@@ -215,6 +237,15 @@ ASYNQ_ATOMS = {
     "unpacked_then_yield": ["ua_{n}, ub_{n}, uc_{n} = yield fetch.asynq(1), fetch.asynq(2), fetch.asynq({n})", "ud_{n} = yield fetch.asynq(p)", "print(ua_{n}, ub_{n}, uc_{n}, ud_{n})"],
     "unpacked_then_yield2": ["(zz_{n}, aa_{n}), mm_{n} = yield (fetch.asynq(1), fetch.asynq(2)), fetch.asynq({n})", "kk_{n} = yield fetch.asynq(p)", "print(zz_{n}, aa_{n}, mm_{n}, kk_{n})"],
     "dup_mixed": ["ym_{n} = yield fetch.asynq({n})", "_ = yield fetch.asynq(p)", "yn_{n} = yield fetch.asynq(ym_{n})", "print(yn_{n})"],
+    # a yield that is not the whole right-hand side: the batching fix first hoists it into an
+    # assignment to a name it INVENTS (from the called function: get_xyz -> xyz, foo -> foo_result);
+    # the invented name must be fresh with respect to everything the function can see
+    "hoist_plain": ["hc_{n} = yield STORE.get_count.asynq(q)", "ht_{n} = {n}", "ht_{n} += yield STORE.get_peak.asynq(q)", "print(hc_{n}, ht_{n})"],
+    "hoist_fetch": ["hc_{n} = yield fetch.asynq({n})", "ht_{n} = p", "ht_{n} += yield fetch.asynq(p)", "print(hc_{n}, ht_{n})"],
+    "hoist_vs_builtin": ["hc_{n} = yield STORE.get_count.asynq(q)", "ht_{n} = {n}", "ht_{n} += yield STORE.get_max.asynq(q)", "print(max(hc_{n}, ht_{n}))"],
+    "hoist_vs_global": ["hb_{n} = settings[\"bonus\"]", "hc_{n} = yield STORE.get_count.asynq(q)", "ht_{n} = hb_{n}", "ht_{n} += yield STORE.get_settings.asynq(q)", "print(hc_{n} + ht_{n})"],
+    "hoist_call_arg": ["hc_{n} = yield STORE.get_count.asynq(q)", "print(takes_two(hc_{n}, (yield STORE.get_max.asynq(q))), max(1, {n}))"],
+    "hoist_vs_local": ["peak = {n}", "hc_{n} = yield STORE.get_count.asynq(q)", "ht_{n} = peak", "ht_{n} += yield STORE.get_peak.asynq(q)", "print(hc_{n}, ht_{n}, peak)"],
 }
 
 # atoms that hit a recorded, unrepaired defect of pyanalyze (KNOWN_FINDINGS.json); they are
